@@ -25,7 +25,7 @@ FAMILIES = [
     ('histsim', 'c08-each', 30, 220),
     ('defsim', 'c20', 30, 220), ('defsim', 'c20-redef', 30, 220), ('defsim', 'c20-ncep', 30, 220),
     ('defsim', 'c20-fixed', 30, 220), ('defsim', 'c08-def', 30, 220),
-    ('subsim', 'c06', 60, 400), ('subsim', 'c06-each', 40, 300),
+    ('subsim', 'c06', 60, 400), ('subsim', 'c06-each', 40, 300), ('defsim', 'c12-def', 30, 220),
 ]
 
 
